@@ -63,6 +63,7 @@ pub fn run_worker(prop: &dyn DynProp, a: &WorkerArgs) -> i32 {
     let mut classes: BTreeMap<String, u64> = BTreeMap::new();
     let mut discards: BTreeMap<String, u64> = BTreeMap::new();
     let mut known_hits: BTreeMap<String, (u64, Value)> = BTreeMap::new(); // finding id -> count, first case
+    let mut known_sigs: BTreeMap<String, u64> = BTreeMap::new(); // "<finding> <signature>" -> count
     let mut unknown: Vec<Value> = Vec::new();
     let mut unknown_sigs: BTreeMap<String, u64> = BTreeMap::new();
     let mut samples: Vec<Value> = Vec::new();
@@ -109,6 +110,7 @@ pub fn run_worker(prop: &dyn DynProp, a: &WorkerArgs) -> i32 {
         }
         if let Some((shrunk, fail)) = rep.shrunk {
             if let Some(fid) = known.matches(pid, &fail.sig) {
+                *known_sigs.entry(format!("{fid} {}", fail.sig)).or_default() += 1;
                 let e = known_hits.entry(fid).or_insert((0, json!({"case": shrunk, "sig": fail.sig})));
                 e.0 += 1;
             } else {
@@ -135,6 +137,7 @@ pub fn run_worker(prop: &dyn DynProp, a: &WorkerArgs) -> i32 {
                 "evaluations": evals, "nontrivial": nontrivial,
                 "classes": classes, "discards": discards,
                 "known_hits": known_hits.iter().map(|(k,(n,c))| (k.clone(), json!({"count": n, "first": c}))).collect::<BTreeMap<_,_>>(),
+                "known_sigs": known_sigs,
                 "unknown": unknown, "unknown_sigs": unknown_sigs,
                 "samples": samples, "nt_samples": nt_samples,
                 "wall_s": t0.elapsed().as_secs_f64(),
